@@ -650,12 +650,12 @@ func c07Worlds(thorough bool, emit func(c07World)) {
 
 type c07Run struct {
 	evals, withVictims int
-	nontrivial     map[string]bool
-	outcomes       map[string]bool
-	found          []mc.Found
-	fpSeen         map[string]int
-	samples        []interface{}
-	counts         map[string]int
+	nontrivial         map[string]bool
+	outcomes           map[string]bool
+	found              []mc.Found
+	fpSeen             map[string]int
+	samples            []interface{}
+	counts             map[string]int
 }
 
 func (r *c07Run) runWorld(w c07World, prop string) {
@@ -878,4 +878,3 @@ func init() {
 	registerCheck(&CheckDef{Prop: "C08", Level: "model_checking", Technique: "exhaustive product of small preemption worlds built on the real core plus explicit-state search of preemption scenarios (incl. quota changes and QUOTA_PREEMPT); guarantee, shortfall and preempting-ledger rules on every step", Custom: checkC07C08("C08"),
 		Assumptions: []string{"'above the guaranteed share at the moment each victim is taken' is judged by its order-free necessary condition", "quota preemption claim bound is judged leniently (task granularity)"}})
 }
-
